@@ -14,6 +14,7 @@ import XotModel.Driver.Scope
 import XotModel.Driver.Ffixed
 import XotModel.Driver.Fmap
 import XotModel.Driver.Parse
+import XotModel.Driver.Fclone
 
 open XotModel.Driver
 
@@ -38,7 +39,7 @@ def dispatchAll (st : MState) (line : String) : MState × String :=
   match words line with
   | "forest" :: "fixed" :: rest => (match handleFfixed st.forest rest with | some (fs, resp) => ({ st with forest := fs }, resp) | none => (st, "bad-request"))
   | "forest" :: rest =>
-    (match handleForest st.forest rest with
+    (match (handleFclone st.d.env st.forest rest).orElse (fun _ => handleForest st.forest rest) with
      | some (fs, resp) => ({ st with forest := fs }, resp)
      | none => (st, "bad-request"))
   | "fmap" :: rest =>
